@@ -392,7 +392,8 @@ class ipv6 (packet_base):
       assert isinstance(self.extension_headers[-1], ExtensionHeader)
       self.extension_headers[-1].next_header_type = eh.TYPE
     else:
-      self._next_header_type = eh.TYPE
+      self.next_header_type = eh.TYPE
+    self.extension_headers.append(eh)
 
   def hdr (self, payload):
     vtcfl = self.v << 28
